@@ -395,6 +395,10 @@ pcalls = [
     ("flagMisbehaving", callers(plugin_files, r"\.flag_misbehaving_tower\(")),
     ("addUpdateTower", callers(plugin_files, r"\.add_update_tower\(")),
     ("removeTower", callers(plugin_files, r"\.remove_tower\(")),
+    ("retrierStatus", callers(plugin_files, r"\.set_status\(", r"\s*RetrierStatus::(\w+)")),
+    ("spawn", callers(plugin_files[1:2], r"tokio::spawn\(")),
+    ("startRetrying", callers(plugin_files, r"\.start_retrying\(")),
+    ("retrierStart", callers(plugin_files, r"retrier\.start\(")),
 ]
 plib = strip_comments(src("watchtower-plugin/src/lib.rs"))
 m = re.search(r"pub enum TowerStatus\s*\{(.*?)\}", plib, flags=re.S)
